@@ -22,6 +22,12 @@ import (
 // h*   HTTP: real httpd.Handler, accounts with tables over the API/database resources, every method,
 //      clean / unclean / preview / unknown URL paths, every credential form (valid and invalid), db names.
 // db*  DatabaseResource: every name of <= L characters over {a, _, /, .} and every pair of them.
+// BYTES: Go strings are byte strings. pm* also runs every string of <= 3 elements over {a, \xff, .., "",
+//      \xc0\xae (overlong '.'), \xc3( (broken sequence)} and a list of odd byte paths (overlong '/', lone
+//      continuation bytes, surrogates); bt* are grant tables keyed by byte paths queried with byte resources;
+//      database names contain invalid bytes; h* send raw request targets (httpraw) through http.ReadRequest:
+//      %2F, %2e%2e, double encoding, %ff and raw high bytes, overlong encodings, broken escapes.
+// ar*  Handler.AddRoute / AddPreviewRoute with patterns that do and do not begin with '/'.
 
 var elems = []string{"a", "b", ".", "..", ""}
 
@@ -60,6 +66,16 @@ func genPathMachine(out *kit.Out, maxLen int) {
 	for _, p := range allPaths(maxLen, elems) {
 		add(p)
 		add("/" + p)
+	}
+	// byte strings that are not valid UTF-8
+	for _, p := range allPaths(3, []string{"a", "\xff", "..", "", "\xc0\xae", "\xc3("}) {
+		add(p)
+		add("/" + p)
+	}
+	for _, p := range []string{"\xff", "/\xff/../\xfe", "/a\xff/./\x80\x80", "/\xc3\x28/..", "\xe2\x82/../..", "/..\xff/..", "/.\xff", "/\xff./..",
+		"/\xed\xa0\x80/x", "/a\xc0\xafb/..", "/\xc0\xae\xc0\xae/x", "\xc0\xae\xc0\xae/\xc0\xae\xc0\xae", "/x/\xc0\xae\xc0\xae\xc0\xafy", "/\x00/..", "/a\x00b/./\x7f",
+		"/\xfe\xff", "/\xf8\x88\x80\x80\x80/../\xf0\x9f", "\x80", "\xbf/..", "/\xff//\xff/", "/\xff/\xfe/../../..", "/\xef\xbf\xbd/\xff"} {
+		add(p)
 	}
 	for _, p := range []string{"...", "/...", "/..a/..", "/a./.b/..", "/é/../ü", "a/é/", "/a/.../b", "..a", "/.a/..b/...", "/a b/%/..", "/a//b/./c/../../d/"} {
 		add(p)
@@ -178,6 +194,42 @@ func genTable(r *kit.Rand) []string {
 	return lines
 }
 
+// genByteTable: a grant table keyed by BYTE paths (not valid UTF-8), queried with byte resources: the map lookup of
+// AuthorizeAction compares bytes, 0xff and 0xfe are different names, "\xc0\xae\xc0\xae" (overlong "..") is a name.
+var byteUniverse = []string{"/", "/\xff", "/\xff/\xfe", "/\xff/\xc3(", "/a/\xff", "/\xc0\xae\xc0\xae", "/\xfe"}
+var byteElems = []string{"\xff", "\xfe", "\xc3(", "a", "\xc0\xae\xc0\xae"}
+
+func genByteTable(r *kit.Rand) []string {
+	g := map[string][]int{}
+	den := r.Range(1, 4)
+	for _, node := range byteUniverse {
+		if r.Intn(5) < den {
+			g[spell(r, node)] = kit.Pick(r, privLists)
+		}
+	}
+	if r.Chance(1, 5) {
+		g[kit.Pick(r, []string{"\xff", "\xff/\xfe", "../\xff"})] = kit.Pick(r, privLists) // relative: designates nothing
+	}
+	lines := []string{"user u pw 0 " + grantsToken(g)}
+	lines = append(lines, "az u /")
+	for _, p := range allPaths(3, byteElems) {
+		lines = append(lines, "az u "+kit.Esc("/"+p))
+	}
+	dirty := append(append([]string{}, byteElems...), ".", "..", "")
+	for i := 0; i < 40; i++ {
+		n := r.Range(1, 6)
+		var segs []string
+		for j := 0; j < n; j++ {
+			segs = append(segs, kit.Pick(r, dirty))
+		}
+		lines = append(lines, "az u "+kit.Esc("/"+strings.Join(segs, "/")))
+	}
+	for _, q := range []string{"\xff", "\xff/\xfe", "/\xff/\xfe/../../\xff/\xfe", "/\xff\xfe", "/\xff/", "/\xff/\xfe/..", "/\xff/../../\xfe", "/\xef\xbf\xbd"} {
+		lines = append(lines, "az u "+kit.Esc(q))
+	}
+	return lines
+}
+
 // genCollision: tables in which several entries spell the SAME node (with different privilege lists); queried
 // with azn (24 NewUser calls each), so a decision that depends on Go's map iteration order shows up.
 func genCollision(r *kit.Rand) []string {
@@ -250,6 +302,29 @@ var urlPaths = []string{
 	// path tricks: the mux redirects them, nothing may be served
 	"/kapacitor/v1/tasks/x/../y", "/kapacitor/v1/tasks//x", "/kapacitor/v1/ping/../tasks", "/kapacitor/v1/./tasks", "/kapacitor/v1/tasks/..",
 	"/kapacitor/v1/tasks/x/", "kapacitor/v1/tasks", "/kapacitor/v1/ping/../write", "/kapacitor//v1/write", "/kapacitor/v1preview/../v1/tasks",
+}
+
+// raw request targets (as they stand in the request line); what net/http makes of them is observed, not assumed
+var rawTargets = []string{
+	// encoded slash / dot / dot-dot: decoded once by net/http, then judged by the mux like a literal one
+	"/kapacitor/v1/tasks%2Fx", "/kapacitor/v1/tasks%2fx%2Fy", "/kapacitor/v1/tasks/%2e%2e/write", "/kapacitor/v1/tasks/%2E%2E", "/kapacitor/v1/tasks/%2e",
+	"/kapacitor/v1%2Ftasks", "/kapacitor/v1/tasks/..%2Fwrite", "/kapacitor/v1/tasks%2F..%2F..%2F..%2Fdatabase%2Fx", "/kapacitor/v1/tasks/.%2e/x",
+	"/kapacitor/v1%2e%2e", "/kapacitor/v1%2e%2e/database/x", "/kapacitor/v1%2E./api/tasks", "/kapacitor/v1..%2Fdatabase", "/kapacitor/v1../database/x",
+	"/kapacitor/v1/ping%2F..%2Fwrite", "/kapacitor/v1/tasks/x%2F", "/kapacitor/v1/tasks/%2F", "/kapacitor/v1/tasks%2F", "/kapacitor%2Fv1%2Ftasks", "%2Fkapacitor/v1/tasks",
+	"/kapacitor/v1preview%2Ftasks", "/kapacitor/v1preview/tasks%2F..%2Fwrite", "/kapacitor/v1preview/%2e%2e/v1/tasks", "/kapacitor/v1preview%2F..%2Fv1%2Fwrite",
+	// double encoding: the second layer is never decoded
+	"/kapacitor/v1/tasks/%252e%252e/x", "/kapacitor/v1/tasks%252Fx", "/kapacitor/v1/tasks/%25252e", "/kapacitor/v1%252e%252e",
+	// bytes that are not valid UTF-8, raw and encoded; overlong encodings of '/' and '.'
+	"/kapacitor/v1/tasks/%ff", "/kapacitor/v1/tasks/\xff", "/kapacitor/v1/tasks/\xff/../x", "/kapacitor/v1/tasks/%c0%af..%c0%afwrite", "/kapacitor/v1/tasks/%c0%ae%c0%ae/x",
+	"/kapacitor/v1/tasks/\xc0\xae\xc0\xae/\xc0\xafx", "/kapacitor/v1\xc0\xae\xc0\xae", "/kapacitor/v1/tasks/%e2%82", "/kapacitor/v1/tasks/%ed%a0%80", "/kapacitor/v1/tasks/a%00b", "/kapacitor/v1/tasks/%0d%0a",
+	"/kapacitor/v1/\xff", "/\xff", "/kapacitor/v1/tasks/%80%2F%2e%2e",
+	// encoded letters reach the same routes (incl. write, ping and the exempt pages)
+	"/kapacitor/v1/ta%73ks", "/kapacitor/v1/%77rite", "/%77rite", "/kapacitor/v1/%70ing", "/kapacitor/v1/debug/%76ars", "/kapacitor/v1/debug%2Fvars", "/kapacitor/v1/debug/pprof%2Fcmdline",
+	"/kapacitor/v1/%3Aroutes", "/kapacitor/v1/tasks%23frag", "/kapacitor/v1/tasks%3Fdb=x", "/kapacitor/v1/tasks/x;y", "/kapacitor/v1/tasks/a+b", "/kapacitor/v1/tasks/a%2Bb", "/kapacitor/v1/tasks#frag",
+	// refused by net/http itself
+	"/kapacitor/v1/tasks/%", "/kapacitor/v1/tasks/%zz", "/kapacitor/v1/tasks/%2", "/kapacitor/v1/tasks/%2g", "/kapacitor/v1/tasks/a b", "/kapacitor/v1/tasks/\x7f", "/kapacitor/v1/tasks/\x01", "kapacitor/v1/tasks", "%2e%2e",
+	// nothing to decode
+	"/kapacitor/v1/tasks", "/kapacitor/v1/tasks/x", "/kapacitor/v1/write", "/write", "//kapacitor/v1/tasks", "/kapacitor/v1/tasks/../write", "/kapacitor/v1/./tasks",
 }
 
 var httpMethods = []string{"GET", "POST", "PATCH", "PUT", "DELETE", "HEAD", "OPTIONS", "get", "TRACE", "CONNECT"}
@@ -374,6 +449,31 @@ func genHTTP(r *kit.Rand) []string {
 		}
 		lines = append(lines, fmt.Sprintf("http %s %s %s %s %s", ra, m, kit.Esc(p), cred(), kit.Esc(kit.Pick(r, dbs))))
 	}
+	// the same chain, entered through http.ReadRequest with a raw request target
+	for i := 0; i < 45; i++ {
+		ra := "1"
+		switch r.Intn(10) {
+		case 0:
+			ra = "0"
+		case 1, 2, 3:
+			ra = "3"
+		}
+		m := "GET"
+		if r.Chance(1, 3) {
+			m = kit.Pick(r, httpMethods[:7])
+		}
+		t := kit.Pick(r, rawTargets)
+		db := ""
+		if strings.Contains(strings.ToLower(t), "rite") {
+			m, db = "POST", kit.Pick(r, dbs)
+		}
+		n := kit.Pick(r, names)
+		c := fmt.Sprintf("basic,%s,%s,%%,%%,%%", kit.Esc(n), kit.Esc("pw-"+n)) // mostly a valid password: the path decides
+		if r.Chance(1, 5) {
+			c = cred()
+		}
+		lines = append(lines, fmt.Sprintf("httpraw %s %s %s %s %s", ra, m, kit.Esc(t), c, kit.Esc(db)))
+	}
 	return lines
 }
 
@@ -401,7 +501,8 @@ func genDB(out *kit.Out, single, pair int) {
 	for _, n := range allNames(single, alpha) {
 		lines = append(lines, "dbres "+kit.Esc(n))
 	}
-	for _, n := range []string{"db", "..", "../x", "a_clean", "a_dirty", "a/_clean", "é/ü", "_clean", "x_dirty_clean"} {
+	for _, n := range []string{"db", "..", "../x", "a_clean", "a_dirty", "a/_clean", "é/ü", "_clean", "x_dirty_clean",
+		"\xff", "\xff/\xfe", "\xc0\xaf", "a\xc0\xafb", "\xff_", "/\xff", "\x80/..", "\xc0\xae\xc0\xae", "\x00", "\xef\xbf\xbd", "\xff\xfe/\xef\xbf\xbd"} {
 		lines = append(lines, "dbres "+kit.Esc(n))
 	}
 	k := 0
@@ -415,6 +516,10 @@ func genDB(out *kit.Out, single, pair int) {
 	}
 	names := allNames(pair, alpha)
 	lines = nil
+	// invalid bytes are not merged: 0xff vs 0xfe vs U+FFFD, and the collision pattern with bytes
+	for _, pr := range [][2]string{{"\xff", "\xfe"}, {"\xff", "\xef\xbf\xbd"}, {"\xff/\xfe_", "\xff_\xfe/"}, {"\xff/", "\xff_"}, {"a\xc0\xafb", "a/b"}, {"\xc0\xaf", "/"}} {
+		lines = append(lines, "dbpair "+kit.Esc(pr[0])+" "+kit.Esc(pr[1]))
+	}
 	for i, a := range names {
 		for _, b := range names[i+1:] {
 			// only pairs that can possibly interact (same length) plus a sample of the others
@@ -451,6 +556,14 @@ func generate(out *kit.Out, f kit.Flags) {
 			genPathMachine(out, 4)
 			genDB(out, 4, 3)
 		}
+		var ar []string
+		for _, pat := range []string{"/x", "x", "", "..", "../database", "/", "/x/", ".", "//x", "\xff", "/\xff", " /x", "%2Fx", "/..", "x/", "?"} {
+			ar = append(ar, "addroute 0 "+kit.Esc(pat))
+			if pat != "/" {
+				ar = append(ar, "addroute 1 "+kit.Esc(pat))
+			}
+		}
+		emit(out, "ar0", execCase(ar))
 	}
 	for i := 0; i < f.N; i++ {
 		emit(out, fmt.Sprintf("t%d", i), execCase(genTable(r.Fork())))
@@ -459,6 +572,9 @@ func generate(out *kit.Out, f kit.Flags) {
 		}
 		if i%4 == 1 {
 			emit(out, fmt.Sprintf("c%d", i), execCase(genCollision(r.Fork())))
+		}
+		if i%5 == 2 {
+			emit(out, fmt.Sprintf("bt%d", i), execCase(genByteTable(r.Fork())))
 		}
 	}
 	if thorough && exhaustive && f.Extra["notables"] == "" {
